@@ -649,4 +649,13 @@ V("c03-message-copies-header", "C03", "break", "R03.2", "CompactSignature keeps 
 V("c14-7797-header-encoded-before-key", "C14", "break", "R14.8", "rfc7797 serialize_compact encodes the header before guess_key records the kid",
   "rfc7797/compact.py", "    obj = CompactSignature(protected, to_bytes(payload))\n    alg = registry.get_alg(protected[\"alg\"])\n    key = guess_key(private_key, obj, True)\n    key.check_use(\"sig\")\n\n    header_segment = json_b64encode(protected)",
   "    header_segment = json_b64encode(protected)\n    obj = CompactSignature(protected, to_bytes(payload))\n    alg = registry.get_alg(protected[\"alg\"])\n    key = guess_key(private_key, obj, True)\n    key.check_use(\"sig\")\n")
+V("c04-unprotected-written-when-absent", "C04", "break", "R04.3", "JSON writer emits unprotected only when it is empty",
+  "rfc7516/json.py", "    if obj.unprotected:\n        data[\"unprotected\"] = obj.unprotected", "    if not obj.unprotected:\n        data[\"unprotected\"] = obj.unprotected")
+V("c03-header-written-when-absent", "C03", "break", "R03.6", "JWS JSON writer emits the unprotected header only when it is empty",
+  "rfc7515/json.py", "    if member.header:\n        rv[\"header\"] = member.header", "    if not member.header:\n        rv[\"header\"] = member.header")
+V("c02-gcm-invalid-tag-swallowed", "C02", "break", "R02.4", "GCM decrypt swallows InvalidTag and returns None",
+  "rfc7518/jwe_encs.py", "        except InvalidTag as error:\n            raise DecodeError(str(error))\n\n\nJWE_ENC_MODELS", "        except InvalidTag as error:\n            pass\n\n\nJWE_ENC_MODELS")
+V("c16-1pu-sender-key-none-unguarded", "C16", "break", "E6", "ECDH-1PU decryption uses recipient.sender_key without the None guard",
+  "drafts/jwe_ecdh_1pu.py", "        if sender_key is None:\n            raise ValueError('Missing \"sender_key\" for ECDH-1PU')\n        assert recipient_key is not None\n\n        self.check_key_type(recipient_key)\n        ephemeral_key = recipient_key.import_key",
+  "        assert recipient_key is not None\n\n        self.check_key_type(recipient_key)\n        ephemeral_key = recipient_key.import_key")
 
